@@ -78,6 +78,11 @@ func (x *fnv) evalCall0(s *State, call *ast.CallExpr) []Value {
 	if sig == nil {
 		panic(unsupported("call of non-function %s", types.ExprString(call.Fun)))
 	}
+	if tgt != nil && tgt.obj != nil {
+		if res, ok := x.preModelCall(s, tgt.obj, call); ok {
+			return res
+		}
+	}
 	args := x.evalArgs(s, call, sig)
 	name := types.ExprString(call.Fun)
 	x.runAts(s, name, call, false, nil, args)
@@ -750,7 +755,7 @@ func sortStrings(a []string) {
 // ownerOf maps a cell reference of region rn to the object whose allocation time decides whether the cell
 // existed at some earlier point: lock bits are addressed by mutex address, owned by the enclosing object.
 func (x *fnv) ownerOf(rn string, ref *Term) *Term {
-	if rn == lockRegionName {
+	if rn == lockRegionName || rn == onceRegionName {
 		return x.c.App("muowner", SInt, ref)
 	}
 	return ref
